@@ -419,3 +419,67 @@ Definition derive_action (v : env) (x : exc) : Falcon.C03.Model.action :=
     match x_payload x with PStatus _ => Falcon.C03.Model.RaiseHTTP
                       | _ => Falcon.C03.Model.RaiseApp Falcon.C03.Model.HRaiseOther end
   end.
+
+(* ---- one app instance over time: add_error_handler calls interleaved with requests whose
+   exceptions are looked up.  _find_error_handler only READS the registry: a lookup leaves
+   the state unchanged (in particular nothing is memoised under the concrete class). *)
+Inductive op :=
+| OReg (r : registration)        (* app.add_error_handler(classes, handler) *)
+| OLookup (mro : list cls).      (* a request raises an object with this MRO *)
+
+Definition lookup (r : registry) (mro : list cls) : option hid * registry :=
+  (find_error_handler r mro, r).
+
+Fixpoint run_ops (r : registry) (ops : list op) : list (option hid) :=
+  match ops with
+  | [] => []
+  | OReg (l, h) :: tl => run_ops (fst (add_loop r l h)) tl
+  | OLookup mro :: tl => let '(h, r') := lookup r mro in h :: run_ops r' tl
+  end.
+
+(* ---- falcon/errors.py: the header-bearing HTTPError subclasses build their `headers` from
+   their own constructor arguments: `headers = _load_headers(headers)` (a fresh dict when the
+   caller passed none) then `headers[NAME] = value`.  Python dict: case-sensitive keys. *)
+Fixpoint pset (l : hpairs) (k v : str) : hpairs :=
+  match l with
+  | [] => [(k, v)]
+  | (k', v') :: tl => if str_eqb k k' then (k', v) :: tl else (k', v') :: pset tl k v
+  end.
+
+Definition load_headers (h : option hpairs) : hpairs :=
+  match h with None => [] | Some l => l end.
+
+Fixpoint join_comma (l : list str) : str :=
+  match l with
+  | [] => []
+  | [x] => x
+  | x :: tl => x ++ s_comma_sp ++ join_comma tl
+  end.
+
+Definition s_Allow : str := Eval vm_compute in lit "Allow".
+Definition s_WWW_Authenticate : str := Eval vm_compute in lit "WWW-Authenticate".
+Definition s_Retry_After : str := Eval vm_compute in lit "Retry-After".
+Definition s_Content_Range : str := Eval vm_compute in lit "Content-Range".
+Definition s_bytes_star : str := Eval vm_compute in lit "bytes */".
+
+Inductive ector :=
+| CMethodNotAllowed (allowed : list str)        (* HTTPMethodNotAllowed(allowed_methods) *)
+| CUnauthorized (challenges : list str)         (* HTTPUnauthorized(challenges=...); [] = falsy *)
+| CRetryAfter (retry_after : option str)        (* 413 / 429 / 503 (retry_after=...), str() of it *)
+| CRange (resource_length : str)                (* HTTPRangeNotSatisfiable(n), str(n) *)
+| CPlain.                                       (* any other HTTPError: headers passed through *)
+
+Definition ctor_headers (c : ector) (h : option hpairs) : option hpairs :=
+  match c with
+  | CMethodNotAllowed allowed => Some (pset (load_headers h) s_Allow (join_comma allowed))
+  | CUnauthorized [] => h
+  | CUnauthorized ch => Some (pset (load_headers h) s_WWW_Authenticate (join_comma ch))
+  | CRetryAfter None => h
+  | CRetryAfter (Some v) => Some (pset (load_headers h) s_Retry_After v)
+  | CRange n => Some (pset (load_headers h) s_Content_Range (s_bytes_star ++ n))
+  | CPlain => h
+  end.
+
+Definition with_ctor (c : ector) (e : herr) : herr :=
+  {| e_status := e_status e; e_title := e_title e; e_desc := e_desc e; e_code := e_code e;
+     e_link := e_link e; e_headers := ctor_headers c (e_headers e) |}.
